@@ -25,7 +25,8 @@ VERIF = report.VERIF
 
 
 def _run(propmod, analysis):
-    code, ctx, new, hits = report.run_property(propmod, analysis, 'thorough', write=False, quiet=True)
+    # variants are analysed with the tables of the quick tier; the full tables run once, on the tree itself
+    code, ctx, new, hits = report.run_property(propmod, analysis, 'quick', write=False, quiet=True)
     return code, ctx, new, hits
 
 
